@@ -524,6 +524,19 @@ func c17kbRand(r *Rng) (e koalabear.Element) {
 	e.SetUint64(r.U64() % 2130706433)
 	return
 }
+// c17UsedHash hands out SHA-256 objects; every other one has been written to before (input never summed). The schemes own
+// the hasher they are given: what it held before is not part of any challenge.
+var c17HashCount int
+
+func c17UsedHash() hash.Hash {
+	h := sha256.New()
+	c17HashCount++
+	if c17HashCount%2 == 0 {
+		h.Write([]byte("an earlier use of this hash object"))
+	}
+	return h
+}
+
 func c17e4Rand(r *Rng) fext.E4 {
 	return fext.E4{B0: fext.E2{A0: c17kbRand(r), A1: c17kbRand(r)}, B1: fext.E2{A0: c17kbRand(r), A1: c17kbRand(r)}}
 }
